@@ -159,6 +159,12 @@ PathEdgesInGraph ==
         \A i \in 1..Len(path) - 1 :
               \/ parent[path[i + 1]] = path[i] \/ parent[path[i]] = path[i + 1]
               \/ {path[i], path[i + 1]} \in link
+(* the form first written down, for every planner: refuted by TLC with Rewiring = TRUE (TreePlanner_pathedges.cfg) *)
+PathEdgesUnconditional ==
+    path # << >> =>
+        \A i \in 1..Len(path) - 1 :
+              \/ parent[path[i + 1]] = path[i] \/ parent[path[i]] = path[i + 1]
+              \/ {path[i], path[i + 1]} \in link
 PathIsFreeWalk ==
     path # << >> =>
         /\ cell[path[1]] \in Starts /\ cell[path[Len(path)]] \in Goals
